@@ -11,13 +11,13 @@ From SqlModel.Acc Require Import Accessors.
 Theorem C18b_barrier : forall pre ty kw rest s,
   barrier_guard pre ty kw rest = true ->
   group (statement_of (pre ++ (ty, kw) :: rest)) = Ok s ->
-  get_type s = Ok (upper kw).
+  get_type s = Ok (knorm kw).
 Proof. exact C18_barrier. Qed.
 Print Assumptions C18b_barrier.
 
 Theorem C18b_barrier_total : forall pre ty kw rest,
   barrier_guard pre ty kw rest = true ->
-  exists s, group (statement_of (pre ++ (ty, kw) :: rest)) = Ok s /\ get_type s = Ok (upper kw).
+  exists s, group (statement_of (pre ++ (ty, kw) :: rest)) = Ok s /\ get_type s = Ok (knorm kw).
 Proof. exact C18_barrier_total. Qed.
 Print Assumptions C18b_barrier_total.
 
@@ -25,7 +25,7 @@ Print Assumptions C18b_barrier_total.
 Theorem C18b_barrier_upto : forall k pre ty kw rest s,
   barrier_guard pre ty kw rest = true ->
   group_upto k (statement_of (pre ++ (ty, kw) :: rest)) = Ok s ->
-  exists v l, s = Grp CStatement v l /\ leadsb kw l = true /\ get_type s = Ok (upper kw).
+  exists v l, s = Grp CStatement v l /\ leadsb kw l = true /\ get_type s = Ok (knorm kw).
 Proof. exact C18_barrier_upto. Qed.
 Print Assumptions C18b_barrier_upto.
 
@@ -39,7 +39,7 @@ Print Assumptions C18b_barrier_passes.
 Theorem C18b_barrier_lexed : forall t pre ty kw rest,
   cur_lex t = Ok (pre ++ (ty, kw) :: rest) ->
   barrier_guard pre ty kw rest = true ->
-  exists s ss, cur_parse t = Ok (s :: ss) /\ get_type s = Ok (upper kw).
+  exists s ss, cur_parse t = Ok (s :: ss) /\ get_type s = Ok (knorm kw).
 Proof. exact C18_barrier_lexed. Qed.
 Print Assumptions C18b_barrier_lexed.
 
@@ -51,7 +51,7 @@ Theorem C18b_barrier_text_cut : forall items w' a ty us rest_text rest_toks,
   us <> [] -> Forall unit_wf us ->
   cur_lex_go (Some 32%N) rest_text = Ok rest_toks ->
   tok_next_ok rest_toks = true -> cntA rest_toks <= 1 ->
-  typed_through_parse (flat_map ptext items ++ w' ++ utext us ++ rest_text) (upper w').
+  typed_through_parse (flat_map ptext items ++ w' ++ utext us ++ rest_text) (knorm w').
 Proof. exact C18_barrier_text_cut. Qed.
 Print Assumptions C18b_barrier_text_cut.
 
